@@ -39,6 +39,8 @@ START = [
     ("with-empty-ranking", [[{1}, {2}], [], [{2}, {1}]]),
     ("late-non-int", [[{"1"}], [{"a"}, {"1"}]]),
     ("mixed-names", [[{"x1"}, {"2"}], [{"2"}, {"x1", "3"}]]),
+    ("negative-ints", [[{-1}, {0, 1}], [{1}, {-1}], [{0}]]),
+    ("negative-int-with-digit-string", [[{-3}, {"2"}], [{"2"}, {-3, "7"}]]),
 ]
 
 
